@@ -7,7 +7,7 @@ from .. import graphcases as GC
 from .. import scenario
 from . import c03
 
-TEMPLATES = ['se2fix', 'se3fix', 'r3fixlm', 'se2allfix', 'r2iso', 'se3far', 'se2far', 'mixed', 'r2', 'se3c', 'se2shared', 'r3shared', 'se2big', 'se2plain', 'se3reg']
+TEMPLATES = ['se2fix', 'se3fix', 'r3fixlm', 'se2allfix', 'r2iso', 'se3far', 'se2far', 'mixed', 'r2', 'se3c', 'se2shared', 'r3shared', 'se2big', 'se2plain', 'se3reg', 'se3rough', 'se2pair']
 
 
 def gen(tier, seed):
@@ -37,6 +37,16 @@ def gen(tier, seed):
                         c, _ = GC.permute(c, rnd)
                     c['mode'] = mode
                     cases.append(c)
+    # exactly ONE free vertex, the first listed vertex already fixed by the user AND fix_first_pose=True (counting fixed vertices twice / once
+    # must not matter), with 0..2 further fixed vertices
+    for kind in ('R2', 'SE2', 'SE3', 'R3'):
+        for extra in (0, 1, 2):
+            c = GC.gen_graph(rnd, kind, 2 + extra, 0, 1 if extra else 0, custom=False, fixed_mode='first', fix_first=True)
+            for j, v in enumerate(c['verts']):
+                v['fixed'] = j != 1
+            c['fixFirst'] = True
+            c['mode'] = 'one-free'
+            cases.append(c)
     return [c for c in cases if GC.components_fixed(c)]
 
 
@@ -72,6 +82,7 @@ def check(run):
                    ('se2fix', [opt(20, True, '1e-4'), opt(1, False)]), ('r3fixlm', [opt(5, False, '1e-4')]), ('se2allfix', [opt(3, True), opt(2, False)]),
                    ('r2iso', [opt(3, False, '1e-4'), opt(3, True)]), ('se3fix', [opt(5, False, '1e-4')]),
                    ('se2shared', [opt(2, False), opt(3, True, '1e-4')]), ('r3shared', [opt(1, False), opt(2, False)]),
+                   ('se3rough', [opt(1, True), opt(3, True, '1e-4'), setf(3, True), opt(2, False)]), ('se2pair', [opt(1, True), opt(2, True), opt(2, False)]),
                    ('r2lonely', [opt(3, True, '1e-4'), setf(4, True), opt(2, True)]), ('se3lonely', [opt(2, True), opt(3, True, '1e-4')])]
     events = []
     sessions = scenario.play(behaviours, run.seed, events, twin_every=1000)
